@@ -41,9 +41,12 @@ def typing_tables(rep):
 
 
 def run(rep):
+    common.load_contracts()
+    from contracts.sql import GET_TYPE_SHAPE_CASES
     return generic.run_generic(
         rep, [('sqlparse.sql.Statement.get_type', None), ('sqlparse.sql.Token.__init__', 'body'),
-              ('sqlparse.engine.grouping.align_comments', 'shape: WITH cte <comment> SELECT')] + tc.NAV_FUNCS[:4],
+              ('sqlparse.engine.grouping.align_comments', 'shape: WITH cte <comment> SELECT')] + list(GET_TYPE_SHAPE_CASES)
+        + tc.NAV_FUNCS[:4],
         structural=[typing_tables, tc.identity_side_conditions],
         assumptions=['the first word of a statement is lexed as the keyword token the tables give: bounded stand-in '
                      '(every DML/DDL keyword x casing x leading trivia x continuations)',
